@@ -605,7 +605,7 @@ def check_read_vtk(st, g, pm):
     scale = max(mm.region.maxabs(), 1e-300)
     for i in range(3):
         for nm, got, want in (("pmin", pmin[i], mm.region.pmin[i]), ("pmax", pmax[i], mm.region.pmax[i])):
-            tol = Fr(atol_rel * scale) + Fr(1e-12 * float(min(mm.cell)))
+            tol = Fr(atol_rel * scale) + Fr(1e-12 * float(min(mm.cell))) if txt else 0  # "exactly for binary and XML"
             if abs(Fr(float(got)) - want) > tol:
                 bad.append(f"{nm}[{i}]={got!r} written={float(want)!r}")
     n = tuple(int(i) for i in g.mesh.n)
@@ -1045,6 +1045,9 @@ def vtk_consume(st, grid, fsh, what, txt=False):
         tol = Fr(1e-12 * float(mm.cell[ax])) + Fr((1e-9 if txt else 8 * EPS) * scale)
         if len(got) != len(want) or any(abs(Fr(float(a)) - b) > tol for a, b in zip(got, want)):
             bad.append(f"{what}: grid coordinates along axis {ax} {got.tolist()[:4]}.. are not the mesh vertices {[float(x) for x in want][:4]}..")
+        elif not txt and (float(got[0]) != float(mm.region.pmin[ax]) or float(got[-1]) != float(mm.region.pmax[ax])):
+            # the outermost vertices ARE the region corners (binary / XML / in memory: exactly)
+            bad.append(f"{what}: outermost grid coordinates along axis {ax} [{float(got[0])!r}, {float(got[-1])!r}] are not the region corners [{float(mm.region.pmin[ax])!r}, {float(mm.region.pmax[ax])!r}]")
     if bad:
         return bad
     pts, idxs = _vtk_points(mm, st.nsteps)
